@@ -44,6 +44,11 @@ impl State {
 
         let (session, serial, created, snapshot, metrics) = {
             let history = history.read();
+            #[cfg(routinator_verif)]
+            crate::verif::trace("HttpRead", &[
+                ("serial", u32::from(history.serial()) as i64),
+                ("active", history.is_active() as i64),
+            ]);
             (
                 history.session(),
                 history.serial(),
